@@ -375,6 +375,15 @@ def render_fn(fs, out, unit, log):
             ls, lb, le = c(lp["start"]), c(lp["body_start"]), c(lp["end"])
             pat = text[c(lp["pat"][0]) : c(lp["pat"][1])]
             expr = text[c(lp["expr"][0]) : c(lp["expr"][1])]
+            # additive option `//@@ r6 K iter /REGEX/ why..` + part text: the iterator expression (which must fully match REGEX, else the
+            # anchor is lost) is replaced by the part text -- an ad-hoc rewrite, logged like `replace` (a `replace` inside the loop header
+            # cannot be combined with r6 because r6 rewrites that span)
+            mo = re.match(r"\d+\s+iter\s+/(.+?)/\s*(.*)$", arg)
+            if mo:
+                if not re.fullmatch(mo.group(1), expr, re.S):
+                    raise LostAnchor(f"fn {fs.path}: r6 {k}: iterator expression `{norm_ws(expr)}` does not match /{mo.group(1)}/")
+                log["rewrites"].append({"rule": "adhoc", "fn": fs.path, "from": expr, "to": ptxt.strip(), "why": mo.group(2)})
+                expr = ptxt.strip()
             label = f"'{lp['label']}: " if lp.get("label") else ""
             itn = f"__it{k}"
             ro = {"type": "rewrite", "rule": "R6", "fn": fs.path, "unit": unit}
